@@ -343,6 +343,29 @@ func c10(c *Ctx) {
 	c.ruleGuarded("C10.2/snapshot-lockset", tbPkgs, snapGuard)
 
 	// ---- C10.3 snapshots pin roots -------------------------------------------------------------------
+	// ---- C10.3 the logical time persisted next to a tree is the time of that tree ----------------------------------
+	// "compaction produces a tree equal to the state at the logical time it reports, which is what the next restart
+	// loads": the ts file written beside a dump carries the dumped snapshot's Ts (the live tree may have moved on while
+	// the dump ran without the lock); the ts file of the live tree carries its root's ts
+	r = "C10.3/ts-file-matches-persisted-tree"
+	nts := 0
+	for _, in := range c.callSites(callTo("embedded/tbtree.writeTsFile")) {
+		nts++
+		owner := fnName(in.Parent())
+		arg := desc(callOf(in).Args[2])
+		switch owner {
+		case tbT + "fullDump":
+			c.check(arg == "call:embedded/tbtree.(*Snapshot).Ts[param:snap]", r, owner+":ts-of-dumped-snapshot", c.pos(in.Pos()), "ts file of a dump = snap.Ts()", "the ts file written beside a compaction dump carries "+arg+" instead of the dumped snapshot's Ts")
+		case tbT + "writeTsFile":
+			c.check(strings.Contains(arg, ".root") && strings.HasSuffix(strings.Split(arg, "[")[0], ".ts"), r, owner+":ts-of-root", c.pos(in.Pos()), "ts file of the live tree = root.ts()", "the ts file of the live tree carries "+arg)
+		default:
+			c.fail(r, owner+":unexpected-ts-writer", c.pos(in.Pos()), "a ts file is written by "+owner+", which has no rule")
+		}
+	}
+	if nts < 2 {
+		c.undecided(r, "floor", fmt.Sprintf("%d writers of a ts file found (fullDump, TBtree.writeTsFile confirmed by hand)", nts))
+	}
+
 	r = "C10.3/snapshots-pin-roots"
 	if f := c.mustFn(r, tbT+"SnapshotMustIncludeTsWithRenewalPeriod"); f != nil {
 		reg := func(in ssa.Instruction) bool {
